@@ -142,6 +142,15 @@ Theorem C02_ec_T1 : forall a n E l, ec_ir n E = Some l ->
 Proof. exact ec_char. Qed.
 Print Assumptions C02_ec_T1.
 
+(* T3, the documented direction ("satisfiable only on graphs with an even number of edges in each
+   connected component"): a union S of components with an odd number of edges => unsatisfiable.
+   The converse is kept as Fam_coloring.ec_sat_of_even_components_statement and tested in the harness. *)
+Theorem C02_ec_unsat_of_odd_component : forall a n E (S : Z -> bool) l,
+  edges_ok n E = true -> closed_under_edges S E -> ec_ir n E = Some l ->
+  Z.odd (len (filter (fun e => S (fst e)) E)) = true -> irs_hold a l = false.
+Proof. exact ec_unsat_of_odd_component. Qed.
+Print Assumptions C02_ec_unsat_of_odd_component.
+
 (* ------------------------------------------------------------------ *)
 (* dominating set (both encodings), tiling                             *)
 (* ------------------------------------------------------------------ *)
